@@ -57,18 +57,18 @@ SlotNames(c) == {"b" \o ToString(i) : i \in 0..(ChanCap[c] - 1)}
   procedure bc_recv(brc)
     variables brh = 0; brl = 0; brv = None;
   {
-   br0: brh := bchigh[brc];                     \* high first: the buffer appears at most as full as it is
-   br1: brl := bclow[brc];
-   br2: brv := bcbuf[brc][BIdx(brc, brl)];
+   bx0: brh := bchigh[brc];                     \* high first: the buffer appears at most as full as it is
+   bx1: brl := bclow[brc];
+   bx2: brv := bcbuf[brc][BIdx(brc, brl)];
         if (brv # None /\ brh > brl) {
-   br3:   bcbuf[brc][BIdx(brc, brl)] := None;
-   br4:   bclow[brc] := brl + 1;
+   bx3:   bcbuf[brc][BIdx(brc, brl)] := None;
+   bx4:   bclow[brc] := brl + 1;
           chRecvd[brc] := Append(chRecvd[brc], SentRec(brc, brv));
           rv[self] := brv;
           return;
         } else {
           call sig_wait(ChSig(brc));
-   br5:   goto br0;
+   bx5:   goto bx0;
         }
   }
 
@@ -203,6 +203,9 @@ SlotNames(c) == {"b" \o ToString(i) : i \in 0..(ChanCap[c] - 1)}
     [] g = "chq" -> chq
 #! FAITHFUL
 , "bchigh", "bclow", "bcbuf", "mcwaiters", "chq"
+#! PINNED
+ @@ ("fiber_bounded_channel_send:low:R" :> {"bs0"}) @@ ("fiber_bounded_channel_send:high:R" :> {"bs1"}) @@ ("fiber_bounded_channel_send:high:CAS" :> {"bs3"})
+ @@ ("fiber_bounded_channel_receive:high:R" :> {"bx0"}) @@ ("fiber_bounded_channel_receive:low:R" :> {"bx1"}) @@ ("fiber_bounded_channel_receive:low:W" :> {"bx4"})
 #! FNPROC
 ,
            fiber_bounded_channel_send |-> {"bc_send"},
